@@ -307,6 +307,11 @@ def run(ctx):
 
     r4 = ctx.rule("C23.4", "repeating a transfer adds nothing; tag currency recomputed", floor=3)
     pr = db.func("RedunBackendDb.put_records")
+    # a thin front that materialises its argument and delegates: the body that does the work is the delegate's
+    for _ in range(2):
+        body = [st for st in pr.body if not (isinstance(st, ast.Expr) and isinstance(st.value, ast.Constant))]
+        if len(body) == 1 and isinstance(body[0], ast.Return) and isinstance(body[0].value, ast.Call) and (call_name(body[0].value) or "").startswith("self.") and f"RedunBackendDb.{call_name(body[0].value)[5:]}" in db.funcs:
+            pr = db.funcs[f"RedunBackendDb.{call_name(body[0].value)[5:]}"]
     t = src(pr)
     ok = "existing_ids = set(self.has_records(record_ids))" in t and "if record_id not in existing_ids" in t and "existing_ids.add(record_id)" in t
     r4.check(ok, f"{db.rel}:RedunBackendDb.put_records:filter", "records already present (or repeated within the batch) are not filtered out before insertion", db.rel, pr.lineno)
